@@ -161,4 +161,65 @@ theorem parseKids_head_strict {e : BEnv} {Γ : Ctx} {cfg : ParserConfig} {m : Xm
   rw [parseKids.eq_2, hw, childNode_noCandidate cfg h]
   simp [unknownOutcome, hc, bind, Except.bind]
 
+
+/-! ### attributes -/
+
+theorem foldlM_insert_noop {α β ε : Type} {f : β → α → Except ε β} {x : α}
+    (h : ∀ b, f b x = .ok b) (b : β) (l1 l2 : List α) :
+    List.foldlM f b (l1 ++ x :: l2) = List.foldlM f b (l1 ++ l2) := by
+  simp only [List.foldlM_append, List.foldlM_cons, h]
+  cases List.foldlM f b l1 <;> rfl
+
+/-- `r` runs first; when it succeeds, `err` is raised (when it fails, its own error stands) -/
+def thenFail {ε β γ : Type} (r : Except ε β) (err : ε) : Except ε γ :=
+  match r with
+  | .ok _ => .error err
+  | .error e => .error e
+
+theorem foldlM_insert_fail {α β ε : Type} {f : β → α → Except ε β} {x : α} {err : ε}
+    (h : ∀ b, f b x = .error err) (b : β) (l1 l2 : List α) :
+    List.foldlM f b (l1 ++ x :: l2) = thenFail (List.foldlM f b l1) err := by
+  simp only [List.foldlM_append, List.foldlM_cons, h]
+  cases List.foldlM f b l1 <;> rfl
+
+/-- `q` matches neither a declared attribute nor an `Attributes` (anyAttribute) field -/
+def unknownAttr (m : XmlMeta) (q : QN) : Bool :=
+  (m.findAttribute q).isNone && (m.findAnyAttributes q).isNone
+
+/-- the attribute is reported: the option is on and the name is outside the xsi namespace -/
+def attrReported (cfg : ParserConfig) (q : QN) : Bool :=
+  cfg.failOnUnknownAttributes && targetUri q ≠ some xsiNs
+
+theorem find_insert_ne {β : Type} {q k : QN} (hne : q ≠ k) (v : β) (a1 a2 : List (QN × β)) :
+    (a1 ++ (q, v) :: a2).find? (·.1 = k) = (a1 ++ a2).find? (·.1 = k) := by
+  simp only [List.find?_append, List.find?_cons]
+  have : decide (q = k) = false := by simpa using hne
+  simp [this]
+
+theorem xsiTypeOf_insert {q : QN} (hne : q ≠ xsiType) (e : BEnv) (v : Str) (a1 a2 : List (QN × Str)) (n : NsMap) :
+    xsiTypeOf e (a1 ++ (q, v) :: a2) n = xsiTypeOf e (a1 ++ a2) n := by
+  simp only [xsiTypeOf, find_insert_ne hne]
+
+theorem xsiNilOf_insert {q : QN} (hne : q ≠ xsiNil) (v : Str) (a1 a2 : List (QN × Str)) :
+    xsiNilOf (a1 ++ (q, v) :: a2) = xsiNilOf (a1 ++ a2) := by
+  simp only [xsiNilOf, find_insert_ne hne]
+
+/-- an `ElementNode` was given the attributes and prefix map at `start`; at `end` it does
+not look at the element's own attribute list again -/
+theorem parseNode_element_tree_attrs (e : BEnv) (Γ : Ctx) (cfg : ParserConfig) (m : XmlMeta)
+    (ea : List (QN × Str)) (en : NsMap) (d : Bool) (xt : Option QN) (xn : Option Bool)
+    (pq : QN) (pa pa' : List (QN × Str)) (pn pn' : NsMap) (pt ptl : Option Str) (c : List Tree) :
+    parseNode e Γ cfg (.element m ea en d xt xn) (.node pq pa pn pt c ptl)
+      = parseNode e Γ cfg (.element m ea en d xt xn) (.node pq pa' pn' pt c ptl) := by
+  simp only [parseNode]
+
+/-! ### conversion -/
+
+/-- `converter.deserialize` raises `ConverterError` for this value (for a tokens var: for one
+of the tokens) -/
+def convFails (e : BEnv) (var : VarCore) (s : Str) (nsmap : NsMap) (types : Option (List TypeRef)) : Bool :=
+  let types := types.getD var.types
+  if var.tokens then ((pySplitWs e.py s).mapM (fun t => deserialize e t types nsmap)).isNone
+  else (deserialize e s types nsmap).isNone
+
 end Proofs.C10
